@@ -145,6 +145,7 @@ package zerolog
 //@   props C01 C05
 //@   arith int
 //@   ensures res != nil && eventbuf(res.buf) && mode(res.buf) == OBJ_FIRST
+//@   ensures [C06,C07] ncalls(newEvent) == old(ncalls(newEvent)) + 1 && res == callres(newEvent, old(ncalls(newEvent)), 0)
 
 //@ func (*Event).write(e) err
 //@   props C01 C03 C04 C06 C14
@@ -221,14 +222,17 @@ package zerolog
 //@ func (*Event).Dict(e, key, dict) res
 //@   flag frontend
 //@   requires e != nil ==> dict != nil && dict != e && eventbuf(dict.buf)
+//@   ensures [C06,C07] dict != nil ==> ncalls(putEvent) == old(ncalls(putEvent)) + 1 && callarg(putEvent, old(ncalls(putEvent)), 0) == dict
 
 //@ func (Context).Dict(c, key, dict) res
 //@   flag frontend
 //@   requires dict != nil && eventbuf(dict.buf)
+//@   ensures [C06,C07] ncalls(putEvent) == old(ncalls(putEvent)) + 1 && callarg(putEvent, old(ncalls(putEvent)), 0) == dict
 
 //@ func (*Array).Dict(a, dict) res
 //@   flag frontend
 //@   requires dict != nil && eventbuf(dict.buf)
+//@   ensures [C06,C07] ncalls(putEvent) == old(ncalls(putEvent)) + 1 && callarg(putEvent, old(ncalls(putEvent)), 0) == dict
 
 //@ func Arr() res
 //@   props C01 C05
@@ -245,6 +249,7 @@ package zerolog
 //@   arith int
 //@   requires a != nil && listbuf(a.buf) && valueok(dst)
 //@   ensures emitsvalue(res, dst)
+//@   ensures [C06,C07] ncalls(putArray) == old(ncalls(putArray)) + 1 && callarg(putArray, old(ncalls(putArray)), 0) == a
 
 //@ func (*Array).MarshalZerologArray(a, b)
 //@   props C01
@@ -254,10 +259,13 @@ package zerolog
 //@ func (*Event).Array(e, key, arr) res
 //@   flag frontend
 //@   requires e != nil ==> arr != nil && (typeis(arr, "*Array") ==> dyn(arr, "*Array") != nil && listbuf(dyn(arr, "*Array").buf))
+//@   ensures [C06,C07] typeis(arr, "*Array") && dyn(arr, "*Array") != nil ==> ncalls(putArray) == old(ncalls(putArray)) + 1 && callarg(putArray, old(ncalls(putArray)), 0) == dyn(arr, "*Array")
+//@   ensures [C06,C07] e != nil && !typeis(arr, "*Array") ==> ncalls(putArray) == old(ncalls(putArray)) + 1
 
 //@ func (Context).Array(c, key, arr) res
 //@   flag frontend
 //@   requires arr != nil && (typeis(arr, "*Array") ==> dyn(arr, "*Array") != nil && listbuf(dyn(arr, "*Array").buf))
+//@   ensures [C06,C07] ncalls(putArray) == old(ncalls(putArray)) + 1 && (typeis(arr, "*Array") ==> callarg(putArray, old(ncalls(putArray)), 0) == dyn(arr, "*Array"))
 
 //@ func (*Event).Object(e, key, obj) res
 //@   flag frontend
@@ -324,6 +332,7 @@ package zerolog
 //@ func (*Array).Object(a, obj) res
 //@   flag frontend
 //@   requires obj != nil
+//@   ensures [C06,C07] ncalls(newEvent) == old(ncalls(newEvent)) + 1 && ncalls(putEvent) == old(ncalls(putEvent)) + 1 && callarg(putEvent, old(ncalls(putEvent)), 0) == callres(newEvent, old(ncalls(newEvent)), 0)
 
 //@ func (*Event).Func(e, f) res
 //@   flag frontend
@@ -672,3 +681,33 @@ package zerolog
 //@   flag guarded mu buf triggered
 //@   requires w != nil && !held(w.mu)
 //@   ensures !held(w.mu) && w.buf == nil && err == nil && ncalls(LevelWriter.WriteLevel) == old(ncalls(LevelWriter.WriteLevel)) && ncalls(io.Writer.Write) == old(ncalls(io.Writer.Write))
+
+// ---------------------------------------------------------------------------
+// C07: effect contract `allocates nothing` on the documented fast paths. The
+// entry set is the property's own list; the walk over the call graph, the
+// per-site obligations and their back end are described in
+// /verif/govc/sweep_allocfree.go.
+
+//@ effect allocfree entry (*Event) Str Strs Bytes Hex Bool Bools Int Ints Int8 Ints8 Int16 Ints16 Int32 Ints32 Int64 Ints64 Uint Uints Uint8 Uints8 Uint16 Uints16 Uint32 Uints32 Uint64 Uints64 Float32 Floats32 Float64 Floats64 Time Times Dur Durs TimeDiff Timestamp Err AnErr Dict Array Object RawJSON Type Func Msg Send Enabled Discard
+//@ effect allocfree entry (*Array) Str Bytes Hex RawJSON Err Bool Int Int8 Int16 Int32 Int64 Uint Uint8 Uint16 Uint32 Uint64 Float32 Float64 Time Dur Object Dict
+//@ effect allocfree entry (*Logger) Trace Debug Info Warn Error Err WithLevel Log
+//@ effect allocfree entry func Dict Arr
+
+//@ effect allocfree dynamic LogObjectMarshaler.MarshalZerologObject : the user's marshaler (the property covers pointer marshalers that use the listed methods)
+//@ effect allocfree dynamic LogArrayMarshaler.MarshalZerologArray : the user's marshaler
+//@ effect allocfree dynamic param:f : the argument of Func
+//@ effect allocfree dynamic Hook.Run : the user's hooks (zerolog's own timestamp hook is walked as (*Event).Timestamp)
+//@ effect allocfree dynamic LevelWriter.WriteLevel : the destination
+//@ effect allocfree dynamic Sampler.Sample : the user's sampler
+//@ effect allocfree dynamic error.Error : Err/AnErr of a plain error
+//@ effect allocfree dynamic field:Event.done : the done callback of Fatal/Panic (nil on the listed level methods)
+//@ effect allocfree dynamic var:ErrorMarshalFunc var:TimestampFunc var:LevelFieldMarshalFunc var:ErrorHandler : function-typed settings at their defaults
+//@ effect allocfree dynamic param:done : nil on the listed level methods
+
+//@ effect allocfree exempt (*Event).AnErr call:(*Event).Interface : only for a marshalled error that is neither nil, a LogObjectMarshaler, an error nor a string; the property covers plain errors
+//@ effect allocfree exempt (*Event).Err call:(*Event).Interface : as for AnErr
+//@ effect allocfree exempt (*Event).Err call:var:ErrorStackMarshaler : only after Stack(), which is not in the property's method set
+//@ effect allocfree exempt (*Array).Err call:(internal/json.Encoder).AppendInterface : as for AnErr
+//@ effect allocfree exempt (*Array).Err call:(internal/cbor.Encoder).AppendInterface : as for AnErr
+//@ effect allocfree exempt (*Event).msg call:fmt.Fprintf : only when the destination returned an error and no ErrorHandler is set
+//@ effect allocfree exempt (Level).String call:strconv.Itoa : only for a level outside TraceLevel..PanicLevel, NoLevel and Disabled; the listed level methods pass none
